@@ -30,6 +30,9 @@ type kOracle func(c *Ctx, id int, k *KCall, r *KResult, body string)
 
 var kOracles = map[string]map[string]kOracle{}
 
+// kCorpus["<property>:<model>"]: minimised past findings, run first in every K run of that property
+var kCorpus = map[string][]*KCall{}
+
 func regOracle(prop, model string, f kOracle) {
 	if kOracles[prop] == nil {
 		kOracles[prop] = map[string]kOracle{}
@@ -86,6 +89,11 @@ func genK(c *Ctx) {
 		g := modelGens[m]
 		if g == nil {
 			must(fmt.Errorf("no generator for model %s", m))
+		}
+		// corpus: fixed cases of past findings for this property and model run first
+		for _, k := range kCorpus[c.Arg("prop", "")+":"+m] {
+			c.Do(k.Body(), true)
+			c.Stats.Count("corpus:" + m)
 		}
 		for i := 0; i < n; i++ {
 			k := drawCall(c.R, g, c.Tier)
